@@ -11,8 +11,9 @@ that point/peer at most and keeps processing subsequent points; the process and 
 unaffected.
 
 A panic is the explicit outcome `trap` / `propagates` of every model, a hang is `fuel`.
-What is NOT proved (stated as `…_stmt`, searched by the child-process harness only): the statement/chain
-parser and the reflection-driven `tick.Evaluate` never raise a run-time error; see checks/C05.json.
+What is NOT proved (stated as `…_stmt`, searched by the child-process harness only): the reflection-driven
+`tick.Evaluate` never raises a run-time error; the parser model finishes within the depth the driver gives
+it (`parser_terminates_stmt`); see checks/C05.json.
 -/
 import Kap.Proofs.C05
 import Kap.Proofs.C05Udf
@@ -21,6 +22,8 @@ import Kap.Proofs.C05Term
 import Kap.Proofs.C05Part
 import Kap.Proofs.C05Typ
 import Kap.Proofs.C05Json
+import Kap.Proofs.C05Len
+import Kap.Proofs.C05Parse
 import Kap.Spec.C05
 import Kap.Gen.C05
 namespace Kap.Props.C05
@@ -224,20 +227,94 @@ theorem parser_error_panics_become_errors :
     ∀ e, runDeferred Gen.parserRecover (.ret e) = .returns e := by
   refine ⟨by decide, by decide, fun e => rfl⟩
 
-/-- Full strength: `ast.Parse` never panics. NOT proved: the recursive-descent parser itself is not modelled,
-and `parser.recover` deliberately re-panics `runtime.Error`s. What IS established about its trap sites:
-* every slice / index expression of parser.go and node.go is in the reviewed inventory
-  (`ast_slice_sites_reviewed`, fail closed), the comment path has none (`comment_path_has_no_slice_site`);
-* the text slices (`p.text[…]`, `lineNumber`) take token positions, which are inside the input and ordered
-  (`lexer_in_bounds`), token texts lie on rune boundaries (`lexer_rune_boundaries`);
-* `precedence[look.typ]` stays inside the table (`lexer_token_types_valid`, `precedence_index_in_table`);
-* every explicit `panic(` of parser.go carries an error value, which `parser.recover` returns as the error
-  (`parser_error_panics_become_errors`).
-Still assumed (review + exhaustive structural enumeration in child processes, no theorem): the two-token
-lookahead indexes `p.token[…]`/`p.comments[…]` stay below 2, `args[l-1]` is behind `l > 0`, the literal
-constructors (`newString`, `newRegex`, `newReference`, `newNumber`) slice token texts that begin and end with
-their delimiters, the type assertions on parser results (`db.(*ReferenceNode)`) hold. -/
-def parser_never_panics_stmt : Prop := ∀ b : Body, ∃ e, runDeferred Gen.parserRecover b = .returns e
+/-- **Delimited tokens hold both delimiters**: every string, regex and reference token the scanner emits has
+at least two bytes of text — what `txt[1 : len(txt)-1]` in `newString` / `newRegex` / `newReference` needs. -/
+theorem lexer_delimited_tokens (c : Ctx) (hf : c.fixed = true) (toks : List Tok) (h : lexRun c = .done toks) :
+    ∀ t ∈ toks, isLenTy t.typ = true → 2 ≤ tlen t := by
+  have hg : Good c {} := ⟨rfl, by simp, by simp, by simp [Ctx.len], ⟨by simp, by simp⟩⟩
+  have hW : W ({} : Lx).toks := by intro t ht; cases ht
+  have hLI : LI ({} : Lx) .token := by intro h; exact absurd h (by decide)
+  obtain ⟨l', h', hw⟩ := run_len c hf (lexFuel c) {} .token hg trivial hW hLI (by simp [mu, rank, lexFuel, Ctx.len])
+  have e : toks = l'.toks.reverse := by
+    have : LexOut.done toks = LexOut.done l'.toks.reverse := by rw [← h, ← h']; rfl
+    exact LexOut.done.inj this
+  subst e
+  exact fun t ht => hw t (List.mem_reverse.mp ht)
+
+example : lexRun { inp := [0x27, 0x27, 0x20, 0x22, 0x61, 0x22], cls := Cls.none } =
+    .done [⟨tString, 0, some 2⟩, ⟨tReference, 3, some 3⟩, ⟨tEOF, 6, some 0⟩] := by decide
+
+/-- The token stream of the scanner satisfies the parser's invariant: tokens inside the text, in order, of real
+token types, delimited tokens of at least two bytes (from the five scanner theorems above). -/
+theorem lexer_stream_meets_parser_invariant (e : PEnv) (hf : e.c.fixed = true) (toks : List Tok)
+    (h : lexRun e.c = .done toks) : Inv e { rest := pstream toks } := by
+  obtain ⟨hb, hs⟩ := lexer_in_bounds e.c hf toks h
+  exact init_inv e toks hb hs (lexer_token_types_valid e.c hf toks h) (lexer_delimited_tokens e.c hf toks h)
+
+/-- **parser_never_panics**: for EVERY byte string, every character-class oracle, every verdict of the literal
+library calls (`strconv`, `influxql.ParseDuration`, `regexp.Compile`) and every recursion depth, the model of
+`ast.Parse` (scanner, then `parser.parse`: two-token lookahead, every production, the literal constructors) and
+of `ast.ParseLambda` never reaches `trap`: no `p.token[…]` / `p.comments[…]` index leaves the two-slot buffer,
+no `p.text[…]`, `l.input[:pos]`, `txt[…]`, `literal[…]`, `args[l-1]`, `precedence[…]` expression goes out of
+range, no `.(*ReferenceNode)` assertion fails. What remains is a node, the error outcome (`p.errorf`), or — for
+a depth that is too small — `fuel`. -/
+theorem parser_never_panics (e : PEnv) (hf : e.c.fixed = true) (k : Nat) :
+    parseScript e k ≠ .trap ∧ parseLambda e k ≠ .trap := by
+  obtain ⟨toks, h⟩ := lexer_total e.c hf
+  have hi := lexer_stream_meets_parser_invariant e hf toks h
+  simp only [parseScript, parseLambda, h]
+  exact ⟨parseToks_safe k _ hi, parseLambdaToks_safe k _ hi⟩
+
+/-- … on ANY token stream that satisfies the invariant (not only the scanner's), e.g. with the lookahead
+buffer about to be read past the closed channel. -/
+theorem parser_never_panics_on_streams (e : PEnv) (k : Nat) (toks : List PTok) (h : Inv e { rest := toks }) :
+    (parseToks e k toks).out ≠ .trap ∧ (parseLambdaToks e k toks).out ≠ .trap :=
+  ⟨parseToks_safe k toks h, parseLambdaToks_safe k toks h⟩
+
+/-- How `parser.parse` ends, as `parser.recover` sees it: a return, a `p.errorf` panic (an error value) or a
+run-time panic. -/
+def parseBody : POut → Option Body
+  | .ok => some (.ret false)
+  | .err => some (.panics .errorVal)
+  | .trap => some (.panics .runtimeErr)
+  | .fuel => none
+
+/-- **ast.Parse returns**: whenever the parser model finishes, the deferred `parser.recover` (shape extracted
+from the source) hands the caller a node or an error — the re-panic of `runtime.Error`s is never reached. -/
+theorem parse_returns_node_or_error (e : PEnv) (hf : e.c.fixed = true) (k : Nat) (b : Body)
+    (h : parseBody (parseScript e k) = some b ∨ parseBody (parseLambda e k) = some b) :
+    ∃ r, runDeferred Gen.parserRecover b = .returns r := by
+  obtain ⟨h1, h2⟩ := parser_never_panics e hf k
+  have key : ∀ o : POut, o ≠ .trap → parseBody o = some b → ∃ r, runDeferred Gen.parserRecover b = .returns r := by
+    intro o ho hb
+    cases o with
+    | ok => simp [parseBody] at hb; subst hb; exact ⟨false, rfl⟩
+    | err => simp [parseBody] at hb; subst hb; exact ⟨true, by decide⟩
+    | trap => exact absurd rfl ho
+    | fuel => simp [parseBody] at hb
+  rcases h with h | h
+  · exact key _ h1 h
+  · exact key _ h2 h
+
+/-- Non-vacuity (kept tiny: kernel evaluation of the nine mutually recursive productions is slow): the empty
+script is accepted, a dangling property operator `a.` is an error, the lambda `-"x"` (unary, reference literal
+with its delimiter slices) is accepted. -/
+def exLit : Lit := ⟨fun _ => true, fun _ => true, fun _ => true⟩
+example : parseScript ⟨{ inp := [], cls := Cls.none }, exLit⟩ 3 = .ok := by decide
+example : parseScript ⟨{ inp := /- a. -/ [0x61, 0x2E], cls := Cls.none }, exLit⟩ 12 = .err := by decide
+example : parseLambda ⟨{ inp := /- -"x" -/ [0x2D, 0x22, 0x78, 0x22], cls := Cls.none }, exLit⟩ 12 = .ok := by decide
+
+/-- The trap sites are live in the model: a reference token of one byte (which the scanner never emits) makes
+`newReference` slice `txt[1:0]`; a third `backup` makes `next` index `p.token[2]`. -/
+theorem parser_model_traps_outside_invariant :
+    (parseToks ⟨{ inp := [0x22], cls := Cls.none }, exLit⟩ 9 [⟨tDBRP, 0, 0⟩, ⟨tReference, 0, 1⟩]).out = .trap ∧
+    (pnext (pbackup (pbackup (pbackup { rest := [] })))).out = .trap := by decide
+
+/-- Stated, not proved: the depth the driver gives the model (`parseDepth` = 8·len + 16) is enough for every
+input, i.e. the model's verdict is never `fuel` (each production consumes a token within a bounded number of
+calls). The driver reports a `fuel` verdict as a MISMATCH, so this is checked on every enumerated string. -/
+def parser_terminates_stmt : Prop :=
+  ∀ e : PEnv, e.c.fixed = true → parseScript e (parseDepth e) ≠ .fuel ∧ parseLambda e (parseDepth e) ≠ .fuel
 
 /-- What the shape does give: exactly the run-time errors and non-error panic values get through. -/
 theorem parser_recover_characterised (v : PanicVal) :
